@@ -1,6 +1,7 @@
 (* Model of the heading-row / external-schema path of the workbook facade, as the code is now.
 
    src/stingray/workbook.py
+     Sheet.set_schema / set_schema_loader   the two binding calls (state = loader + schema), see [bind_step]
      Sheet.row_iter              one iterator over the unpacker's rows, consumed in two phases:
                                    json_schema = loader.header(it); if json_schema: schema = from_json(json_schema)
                                    for instance in loader.body(it): yield Row(sheet, instance)
@@ -107,6 +108,27 @@ Definition row_iter (l : loader) (preset : option schema) (src : sheet) : res (o
     | _ :: _, None => Err AttributeError                   (* Row.__init__: sheet.schema *)
     | _, _ => Ok (sch, rows)
     end).
+
+(* ---- binding calls on ONE Sheet object, before rows() ----
+   Sheet.__init__        loader = SchemaLoader(), no schema attribute
+   Sheet.set_schema(s)   schema = s AND loader = SchemaLoader()  (the reset that assures all rows are processed)
+   Sheet.set_schema_loader(l)   loader = l, schema untouched
+   The state is (loader, bound schema); rows() then runs row_iter from the final state. *)
+Inductive binding := SetSchema (s : schema) | SetLoader (l : loader).
+Definition sheet_state := (loader * option schema)%type.
+Definition init_state : sheet_state := (NoLoader, None).
+
+Definition bind_step (st : sheet_state) (b : binding) : sheet_state :=
+  match b with
+  | SetSchema s => (NoLoader, Some s)
+  | SetLoader l => (l, snd st)
+  end.
+
+Definition bind_all (bs : list binding) : sheet_state := fold_left bind_step bs init_state.
+
+(* list(sheet.rows()) after the binding calls bs on a fresh sheet *)
+Definition read_after (bs : list binding) (src : sheet) : res (option schema * sheet) :=
+  row_iter (fst (bind_all bs)) (snd (bind_all bs)) src.
 
 (* ---- WBNav.name(k).value() ---- *)
 Definition find_entry (s : schema) (k : key) : option entry :=
